@@ -76,6 +76,8 @@ def main():
                                how="tools/confirm_seeded.py on fresh scratch copies of /repo HEAD outside /repo and /verif"),
                 checks_run=results,
             )
+            if os.environ.get("SEED_HISTORY"):
+                meta_out["history"] = os.environ["SEED_HISTORY"]
             json.dump(meta_out, open(os.path.join(dst, "meta.json"), "w"), indent=1)
             print("KEPT", dst)
         else:
